@@ -613,8 +613,17 @@ package iscp
 //@   assert call closeWithError: failed && arg2 == resErr
 //@   ensures imp(failed, result != nil && closedWith != nil)
 //@   ensures imp(result == nil, connected)
+// C04: acknowledgements that are buffered but not yet flushed survive a resume (the consumed
+// chunks they stand for are still acknowledged once, on the new wire connection)
+// (other goroutines flush and fill them meanwhile, so this is stated as "resume does not assign them")
+//@   forbid[C04] write Downstream.resultAckBuffer
+//@   forbid[C04] write Downstream.dataIDAckBuffer
+//@   forbid[C04] write Downstream.upstreamInfoAckBuffer
 //@ func (*Downstream).resume$1
 //@   props C05
+//@   forbid[C04] write Downstream.resultAckBuffer
+//@   forbid[C04] write Downstream.dataIDAckBuffer
+//@   forbid[C04] write Downstream.upstreamInfoAckBuffer
 //@   assert call SubscribeDownstreamChunk$: arg0 == d.wireConn && arg2 == d.idAlias
 //@   assert call SubscribeDownstreamChunkAckComplete: arg0 == d.wireConn && arg2 == d.idAlias
 //@   assert call subscribeDownstreamMetadata: arg2 == d.idAlias
